@@ -1983,7 +1983,7 @@ INDEX_PARAMS = {'row', 'axis', 'index', 'idx', 'clazz', 'class', 'neuron', 'comp
 DIM_PARAMS = {'dim', 'dimension', 'n', 'size', 'width'}
 
 
-def check_index_guards(ctx, rule, qnames):
+def check_index_guards(ctx, rule, qnames, dim_of=None):
     """A constructor that takes an index and a dimension may guard the pair only with `index < dim`: every index below the dimension is a
     legal argument (a guard that fails for one of them turns a documented call into a panic), and an index equal to the dimension is not."""
     from ..mir import strip_sites as s_
@@ -1997,6 +1997,14 @@ def check_index_guards(ctx, rule, qnames):
             names = b.arg_names()
             idxs = [('param', n) for n in names if n in INDEX_PARAMS]
             dims = [('param', n) for n in names if n in DIM_PARAMS]
+            # the dimension may be a property of self: `row < self.outdim()`; any *other* dimension getter of self in that place is the
+            # wrong bound
+            wrong_dims = []
+            if dim_of and q in dim_of:
+                good = ('call', dim_of[q], (('param', 'self'),))
+                dims.append(good)
+                wrong_dims = [('call', g, (('param', 'self'),)) for g in ('AffFuncBase::indim', 'AffFuncBase::outdim', 'AffFuncBase::n_constraints') if g != dim_of[q] and
+                              not {g, dim_of[q]} == {'AffFuncBase::outdim', 'AffFuncBase::n_constraints'}]
             site = q + '#index-guard'
             if not idxs or not dims:
                 ctx.undecided(rule, site, 'no (index, dimension) parameter pair found (%s)' % ', '.join(names), b.span)
@@ -2009,6 +2017,10 @@ def check_index_guards(ctx, rule, qnames):
                         x = x[1]
                     while y[0] == 'cast':
                         y = y[1]
+                    if (x in idxs and y in wrong_dims) or (y in idxs and x in wrong_dims):
+                        bad.append('an index compared with the wrong dimension of self')
+                        n += 1
+                        continue
                     if x in idxs and y in dims:
                         rel = op
                     elif y in idxs and x in dims:
